@@ -192,6 +192,7 @@ type c14Run struct {
 	fails []Failure
 	prog  int32 // index of the operation in progress (read by the watchdog)
 	stop  bool
+	loose bool
 	pool  *c14Pool
 	// what the recorder should have counted, from the observed results
 	nGets, nMiss, nPuts, nRet, nEv int
@@ -242,7 +243,16 @@ func (r *c14Run) emit(tok, res string) {
 	r.impl = append(r.impl, res)
 }
 
+// c14Loose are the clauses that need no bookkeeping of which block is held under which key.  Once a block is indexed
+// while its owner may overwrite it (FIFO.Get kept it; or the history overwrites indexed blocks on purpose) the same
+// block can be indexed under two keys and only these are judged; the correspondence with the model goes on in full.
+var c14Loose = map[string]bool{"len-gt-cap": true, "len-vs-peek": true, "get.wrong-base": true, "cap": true,
+	"peek-vs-get": true, "peek-miss-next": true, "stats": true, "put.refused-other": true, "free.slots": true}
+
 func (r *c14Run) failf(sig, format string, a ...interface{}) {
+	if r.loose && !c14Loose[sig] {
+		return
+	}
 	r.fails = append(r.fails, Failure{Signature: "c14." + c14KindName[r.kind] + "." + sig, What: fmt.Sprintf(format, a...)})
 }
 
@@ -418,6 +428,19 @@ func (r *c14Run) op(tok string, readerStyle bool) {
 		bgzf.VerifSetBase(b, int64(num(1)))
 		r.bases[int64(num(1))] = true
 		r.emit(fmt.Sprintf("b%d,%d,%d,%d", id, b.Base(), b2i(b.Used()), b.NextBase()), ".")
+	case 'W':
+		// overwrite the base of ANY block made so far, indexed by a cache or not (not reader style: the property
+		// promises nothing about the bases Get returns then, but Len <= Cap, Peek/Len/Get consistency and the
+		// eviction order must survive)
+		if len(r.blocks) == 0 {
+			break
+		}
+		id := num(0) % len(r.blocks)
+		b := r.blocks[id]
+		r.loose = true
+		bgzf.VerifSetBase(b, int64(num(1)))
+		r.bases[int64(num(1))] = true
+		r.emit(fmt.Sprintf("b%d,%d,%d,%d", id, b.Base(), b2i(b.Used()), b.NextBase()), ".")
 	case 'P', 'p', 'q':
 		var id int
 		switch tok[0] {
@@ -488,7 +511,19 @@ func (r *c14Run) op(tok string, readerStyle bool) {
 			if ev != nil {
 				vid := r.idOf[ev]
 				r.owned[vid] = true
-				i := r.heldIdx(vid)
+				// a block can be indexed under two keys (FIFO hands it out and keeps it): the entry that left
+				i := -1
+				for j, h := range r.held {
+					if h.id == vid {
+						if still, _ := r.c.Peek(h.base); !still {
+							i = j
+							break
+						}
+					}
+				}
+				if i < 0 {
+					i = r.heldIdx(vid)
+				}
 				if i < 0 {
 					r.failf("put.evicted-unknown", "Put handed back block %d which the cache was not holding", vid)
 				} else {
@@ -541,37 +576,21 @@ func (r *c14Run) op(tok string, readerStyle bool) {
 			if pk && pnx != b.NextBase() {
 				r.failf("peek-next", "Peek(%d) next = %d, block's NextBase = %d", k, pnx, b.NextBase())
 			}
-			if b.Base() != k {
+			if b.Base() != k && readerStyle {
 				r.failf("get.wrong-base", "Get(%d) returned a block with base %d", k, b.Base())
-				r.stop = true
 			}
 			id := r.idOf[b]
 			still, _ := r.c.Peek(k)
-			if i := r.heldIdx(id); i >= 0 && !still {
+			if i := r.heldByBase(k); i >= 0 && !still {
 				r.dropHeld(i)
 			}
 			if readerStyle {
 				r.owned[id] = true
 				if still {
-					// The contract says the returned block is removed (the caller now owns it).  Do what the
-					// reader does with a block it owns: offer it back, and when it is refused recycle it for
-					// another member; then ask for the old base again.
-					other := k + 100
-					ev, kept := r.c.Put(b)
-					r.nPuts++
-					r.emit(fmt.Sprintf("p%d", id), map[bool]string{true: "k", false: "r"}[kept])
-					if !kept && ev == b {
-						bgzf.VerifSetBase(b, other)
-						r.bases[other] = true
-						r.emit(fmt.Sprintf("b%d,%d,%d,%d", id, b.Base(), b2i(b.Used()), b.NextBase()), ".")
-						b2 := r.c.Get(k)
-						r.nGets++
-						if b2 != nil && b2.Base() != k {
-							r.emit(tok, strconv.Itoa(r.idOf[b2]))
-							r.failf("get.wrong-base", "Get(%d) returned a block with base %d: an earlier Get(%d) handed the block out but left it indexed, and the owner has since recycled it", k, b2.Base(), k)
-						}
-					}
-					r.stop = true
+					// The contract says the returned block is removed (the caller now owns it); this cache kept it
+					// indexed.  The history goes on as the reader would (offer it back, recycle it when refused …):
+					// only so can a wrong base or Len() > Cap() be seen.
+					r.loose = true
 				}
 			}
 		}
@@ -671,6 +690,7 @@ func c14Seq(e *c14Env, in c14Input, observeFull bool) *c14Run {
 	}
 	r := newC14Run(e, in.Kind, in.Cap)
 	readerStyle := in.Mode == "reader"
+	r.loose = in.Mode == "abuse"
 	o := e.guard(c14CallTimeout, &r.prog, func() {
 		for i, t := range in.Ops {
 			atomic.StoreInt32(&r.prog, int32(i))
@@ -908,10 +928,11 @@ func c14Alphabet(reduced bool, recorder bool) []string {
 	if recorder {
 		return a
 	}
+	// W0,300: the block made first is given another base, whether a cache indexes it or not
 	if reduced {
 		return append(a, "d1")
 	}
-	return append(a, "d1", "d2", "r1", "r2", "r3", "f1", "f2")
+	return append(a, "d1", "d2", "r1", "r2", "r3", "f1", "f2", "W0,300")
 }
 
 // runs a batch of histories: implementation in-process, model lines in driver processes
@@ -1031,7 +1052,7 @@ func checkC14(c *ctx) {
 		"{Put(fresh block, base in {0,100,200}, used/unused), Get(base), Drop(1,2), Resize(1,2,3), Free(1,2)} " +
 		"x capacity 1..3 x {LRU,FIFO,Random} (StatsRecorder variants: Put/Get alphabet, Stats compared), Len/Cap/Peek(all bases) observed after every operation; " +
 		"reader: random histories of 30-120 operations in reader style (owned blocks are Put, handed-back blocks are overwritten with VerifSetBase and re-used; cap+1..cap+3 bases, capacity 1..4); " +
-		"edge: capacity <= 0 through Resize (correspondence only); conc: 2..4 goroutines x 2-4 operations on one cache (spin barrier per round), linearization searched by the Lean driver. " +
+		"abuse: the same generator with 1/8 of the calls replaced by overwriting the base of an arbitrary block, indexed or not (Len<=Cap, Peek/Len/Get consistency and eviction order judged; returned bases not judged); edge: capacity <= 0 through Resize (correspondence only); conc: 2..4 goroutines x 2-4 operations on one cache (spin barrier per round), linearization searched by the Lean driver. " +
 		"A history is non-trivial when it contains a Put followed by another Put or by Get/Drop/Resize/Free; distinct = distinct (kind,capacity,operation list)."
 	main := newC14Env(c, res)
 	defer main.close()
@@ -1161,7 +1182,7 @@ func checkC14(c *ctx) {
 	// the witness of the recorded FIFO finding (Lean: fifo_get_returns_requested_base_witness) is replayed on the
 	// implementation on every run; if it stops failing there, model and code have parted
 	for _, k := range []string{"F", "SF"} {
-		in := c14Input{Mode: "reader", Kind: k, Cap: 1, Ops: []string{"q7,0,0", "g0"}}
+		in := c14Input{Mode: "reader", Kind: k, Cap: 1, Ops: []string{"q7,0,0", "g0", "q0,0,2", "w0,100", "g0", "q7,200,0", "l"}}
 		before := res.NFailures
 		if r := c14Seq(main, in, false); r != nil {
 			main.batch.add(in, r)
@@ -1188,6 +1209,32 @@ func checkC14(c *ctx) {
 	}
 	main.batch.flush("C14.reader", 8)
 	lap("reader-style histories")
+
+	// ---- histories in which blocks are overwritten while a cache indexes them (not reader style)
+	nAbuse := 8000
+	if c.thorough() {
+		nAbuse = 120000
+	}
+	for i := 0; i < nAbuse; i++ {
+		in := c14GenReader(c.rnd)
+		in.Mode = "abuse"
+		for j := range in.Ops {
+			if c.rnd.coin(1, 8) {
+				in.Ops[j] = fmt.Sprintf("W%d,%d", c.rnd.intn(1000), 100*c.rnd.intn(in.Cap+3))
+			}
+		}
+		r := c14Seq(main, in, false)
+		res.eval(in.Kind+fmt.Sprint(in.Cap)+strings.Join(in.Ops, " "), c14Nontrivial(in.Ops))
+		res.hist("overwrite-while-indexed: " + c14KindName[in.Kind])
+		if i < 1 {
+			res.sample(in)
+		}
+		if r != nil {
+			main.batch.add(in, r)
+		}
+	}
+	main.batch.flush("C14.abuse", 8)
+	lap("overwrite-while-indexed histories")
 
 	// ---- concurrent histories, in a child process: a data race inside a cache makes the Go runtime abort
 	// ("fatal error: concurrent map read and map write"), which cannot be recovered in-process
